@@ -1,38 +1,104 @@
 //! C06 — kernel matrices (`linfa-kernel`) and agglomerative clustering (`linfa-hierarchical`).
 //!
-//! Ops (all inputs travel in the request line, floats as IEEE bits):
-//!   dense  m= X= ci=            dense kernel: matrix + size/sum/diagonal/upper triangle/columns
-//!   ddot   m= X= q= R=          dense kernel `dot`
-//!   sparse m= k= X= nb= ci=     sparse kernel (CSR triple + views); `nb` = what the real neighbour
-//!                               index returned for `k_nearest(row, k+1)` (external input of the model)
-//!   sdot   m= k= X= nb= q= R=   sparse kernel `dot`
-//!   hier   n= steps= dis= crit= ut=   replay of the `kodama` dendrogram (read through the hook)
-//!   #linkage …                  oracle only: the dendrogram contract the model assumes
-//! Values on whose path libm lies are written `~…`; for the linear kernel everything is exact.
+//! Ops (all inputs travel in the request line, floats as IEEE bits; every op exists for `f64` kernels and,
+//! with the suffix `32`, for `f32` kernels — 8 hex digits per float in the request):
+//!   dense  m= X= ci= form= lay=            dense kernel: matrix + size/nsamples/nfeatures/is_linear/sum/
+//!                                          diagonal/upper triangle/columns; `form` = which construction
+//!                                          wrapper of `KernelParams` built it, `lay` = memory layout of the records
+//!   ddot   m= X= q= R= form= lay=          dense kernel `dot`
+//!   sparse m= k= X= nb= idx= ci= form= lay=  sparse kernel (CSR triple + views); `nb` = what the real neighbour
+//!                                          index returned for `k_nearest(row, k+1)` (external input of the model)
+//!   sdot   m= k= X= nb= idx= q= R= …       sparse kernel `dot`
+//!   hier   n= steps= dis= crit= ut= form=  parameter guard + replay of the `kodama` dendrogram (read through the hook)
+//!   #linkage …                             oracle only: the dendrogram contract the model assumes
+//! Values on whose path libm lies are written `~…` (the value widened to f64); for the linear kernel everything is exact.
 use crate::util::*;
+use linfa::dataset::{DatasetBase, Records};
 use linfa::traits::Transformer;
-use linfa_hierarchical::verif_hooks_c06::linkage_steps;
+use linfa_hierarchical::verif_hooks_c06::{linkage_steps, linkage_steps_f32};
 use linfa_hierarchical::{HierarchicalCluster, Method};
-use linfa_kernel::{Kernel, KernelInner, KernelMethod, KernelType};
-use linfa_nn::{distance::L2Dist, CommonNearestNeighbour, NearestNeighbour};
-use ndarray::Array2;
+use linfa_kernel::{Kernel, KernelInner, KernelMethod, KernelParams, KernelType};
+use linfa_nn::{distance::L2Dist, BallTree, CommonNearestNeighbour, KdTree, LinearSearch, NearestNeighbour};
+use ndarray::{s, Array1, Array2, ShapeBuilder};
 use std::panic::{catch_unwind, AssertUnwindSafe};
 
-#[derive(Clone, Copy, Debug)]
-enum Km {
-    L,
-    G(f64),
-    P(f64, f64),
+/// the two float types linfa kernels exist for; the oracle always works on the exactly widened values
+pub trait Fl: linfa::Float {
+    /// op-name suffix
+    const T: &'static str;
+    /// distance from 1.0 to the next float
+    const EPS: f64;
+    /// smallest positive normal number
+    const TINY: f64;
+    const HUGE: f64;
+    fn w(self) -> f64;
+    fn nar(x: f64) -> Self;
+    fn hx(self) -> String;
+    fn beq(self, o: Self) -> bool;
+    fn steps(d: &mut [Self], n: usize, m: Method) -> Vec<(usize, usize, Self, usize)>;
 }
-impl Km {
+impl Fl for f64 {
+    const T: &'static str = "";
+    const EPS: f64 = f64::EPSILON;
+    const TINY: f64 = f64::MIN_POSITIVE;
+    const HUGE: f64 = f64::MAX;
+    fn w(self) -> f64 {
+        self
+    }
+    fn nar(x: f64) -> f64 {
+        x
+    }
+    fn hx(self) -> String {
+        hex64(self)
+    }
+    fn beq(self, o: f64) -> bool {
+        self.to_bits() == o.to_bits() || (self.is_nan() && o.is_nan())
+    }
+    fn steps(d: &mut [f64], n: usize, m: Method) -> Vec<(usize, usize, f64, usize)> {
+        linkage_steps(d, n, m)
+    }
+}
+impl Fl for f32 {
+    const T: &'static str = "32";
+    const EPS: f64 = f32::EPSILON as f64;
+    const TINY: f64 = f32::MIN_POSITIVE as f64;
+    const HUGE: f64 = f32::MAX as f64;
+    fn w(self) -> f64 {
+        self as f64
+    }
+    fn nar(x: f64) -> f32 {
+        x as f32
+    }
+    fn hx(self) -> String {
+        hex32(self)
+    }
+    fn beq(self, o: f32) -> bool {
+        self.to_bits() == o.to_bits() || (self.is_nan() && o.is_nan())
+    }
+    fn steps(d: &mut [f32], n: usize, m: Method) -> Vec<(usize, usize, f32, usize)> {
+        linkage_steps_f32(d, n, m)
+    }
+}
+/// relative tolerance for a value that went through `k` roundings of the type (never below 1e-12)
+fn tol<F: Fl>(k: usize) -> f64 {
+    (2.0 * k as f64 * F::EPS).max(1e-12)
+}
+
+#[derive(Clone, Copy, Debug)]
+enum Km<F> {
+    L,
+    G(F),
+    P(F, F),
+}
+impl<F: Fl> Km<F> {
     fn enc(&self) -> String {
         match self {
             Km::L => "l".into(),
-            Km::G(e) => format!("g:{}", hex64(*e)),
-            Km::P(c, d) => format!("p:{}:{}", hex64(*c), hex64(*d)),
+            Km::G(e) => format!("g:{}", e.hx()),
+            Km::P(c, d) => format!("p:{}:{}", c.hx(), d.hx()),
         }
     }
-    fn linfa(&self) -> KernelMethod<f64> {
+    fn linfa(&self) -> KernelMethod<F> {
         match self {
             Km::L => KernelMethod::Linear,
             Km::G(e) => KernelMethod::Gaussian(*e),
@@ -49,57 +115,83 @@ impl Km {
     fn exact(&self) -> bool {
         matches!(self, Km::L)
     }
-    /// the kernel function from its definition, plain sequential loops
+    /// the kernel function from its definition, plain sequential loops over the exactly widened values
     fn eval(&self, a: &[f64], b: &[f64]) -> f64 {
         match self {
             Km::L => a.iter().zip(b).map(|(x, y)| x * y).fold(0.0, |s, t| s + t),
             Km::G(e) => {
                 let d = a.iter().zip(b).map(|(x, y)| (x - y) * (x - y)).fold(0.0, |s, t| s + t);
-                (-d / e).exp()
+                (-d / e.w()).exp()
             }
-            Km::P(c, d) => (a.iter().zip(b).map(|(x, y)| x * y).fold(0.0, |s, t| s + t) + c).powf(*d),
+            Km::P(c, d) => (a.iter().zip(b).map(|(x, y)| x * y).fold(0.0, |s, t| s + t) + c.w()).powf(d.w()),
         }
     }
-}
 
-impl Km {
-    /// `got` is the kernel function of `a`, `b` up to the rounding of a differently ordered dot
-    /// product (ndarray adds eight partial sums; the naive loop adds left to right)
+    /// `got` is the kernel function of `a`, `b` up to the rounding of the float type `F` (ndarray adds eight
+    /// partial sums; the naive loop adds left to right; the oracle itself works in f64)
     fn entry_ok(&self, got: f64, a: &[f64], b: &[f64]) -> bool {
         let want = self.eval(a, b);
-        if approx(got, want, 1e-12, 0.0) {
+        if approx(got, want, tol::<F>(2), 0.0) {
             return true;
         }
+        // overflow of the narrower type
+        if got.is_infinite() && want.abs() >= F::HUGE * (1.0 - 1e-6) && (got > 0.0) == (want > 0.0) {
+            return true;
+        }
+        let p = a.len() as f64;
         let scale: f64 = a.iter().zip(b).map(|(x, y)| (x * y).abs()).fold(0.0, |s, t| s + t);
-        let delta = 1e-15 * (a.len() as f64 + 1.0) * scale;
+        let delta = 5.0 * F::EPS * (p + 1.0) * scale;
         match self {
-            Km::G(_) => false,
+            Km::G(e) => {
+                // Σ(x-y)², the division and exp are rounded; a relative error r of the exponent argument is an
+                // error |arg|·r of the value; results below the normal range carry an absolute error
+                let arg = sqd(a, b) / e.w();
+                let rel = (arg.abs() * (p + 3.0) + 4.0) * F::EPS;
+                approx(got, want, rel.max(1e-12), 2.0 * F::TINY)
+            }
             Km::L => (got - want).abs() <= delta,
             Km::P(c, d) => {
                 let s = a.iter().zip(b).map(|(x, y)| x * y).fold(0.0, |s, t| s + t);
-                let (v1, v2) = ((s - delta + c).powf(*d), (s + delta + c).powf(*d));
+                let delta = delta + 2.0 * F::EPS * (s + c.w()).abs();
+                let (v1, v2) = ((s - delta + c.w()).powf(d.w()), (s + delta + c.w()).powf(d.w()));
+                let r = tol::<F>(4);
                 if v1.is_nan() || v2.is_nan() || want.is_nan() {
                     // the base crosses zero inside the rounding interval: either outcome is legitimate
-                    return got.is_nan() || approx(got, v1, 1e-9, 0.0) || approx(got, v2, 1e-9, 0.0) || approx(got, want, 1e-9, 0.0);
+                    let r = r.max(1e-9);
+                    return got.is_nan() || approx(got, v1, r, 0.0) || approx(got, v2, r, 0.0) || approx(got, want, r, 0.0);
                 }
                 let (lo, hi) = (v1.min(v2).min(want), v1.max(v2).max(want));
-                got >= lo - 1e-12 * lo.abs() && got <= hi + 1e-12 * hi.abs()
+                (got >= lo - r * lo.abs() - 2.0 * F::TINY && got <= hi + r * hi.abs() + 2.0 * F::TINY) || (got.is_infinite() && hi.abs().max(lo.abs()) >= F::HUGE * (1.0 - 1e-6))
             }
         }
     }
 }
 
-fn fl(ex: bool, x: f64) -> String {
-    if ex { hex64c(x) } else { format!("~{}", hex64c(x)) }
+fn fl<F: Fl>(ex: bool, x: F) -> String {
+    if ex {
+        if x.is_nan() { "nan".into() } else { x.hx() }
+    } else {
+        format!("~{}", hex64c(x.w()))
+    }
 }
-fn fls(ex: bool, xs: &[f64]) -> String {
+fn fls<F: Fl>(ex: bool, xs: &[F]) -> String {
     list(xs.iter(), |x| fl(ex, *x))
 }
-fn rows_of(x: &Array2<f64>) -> Vec<Vec<f64>> {
+/// a column entry: the two zeros are the same number (the fill of the sparse `column` is `-0.0`)
+fn flz<F: Fl>(ex: bool, x: F) -> String {
+    fl(ex, if x == F::zero() { F::zero() } else { x })
+}
+fn rows_of<F: Fl>(x: &Array2<F>) -> Vec<Vec<F>> {
     x.rows().into_iter().map(|r| r.to_vec()).collect()
 }
-fn enc_rows(r: &[Vec<f64>]) -> String {
-    list2(r.iter().map(|x| x.iter()), |x| hex64(*x))
+fn widen<F: Fl>(r: &[Vec<F>]) -> Vec<Vec<f64>> {
+    r.iter().map(|x| x.iter().map(|v| v.w()).collect()).collect()
+}
+fn wv<F: Fl>(r: &[F]) -> Vec<f64> {
+    r.iter().map(|v| v.w()).collect()
+}
+fn enc_rows<F: Fl>(r: &[Vec<F>]) -> String {
+    list2(r.iter().map(|x| x.iter()), |x| x.hx())
 }
 fn beq(a: f64, b: f64) -> bool {
     a.to_bits() == b.to_bits() || (a.is_nan() && b.is_nan())
@@ -119,6 +211,9 @@ fn approx(a: f64, b: f64, rel: f64, abs: f64) -> bool {
 }
 fn sqd(a: &[f64], b: &[f64]) -> f64 {
     a.iter().zip(b).map(|(x, y)| (x - y) * (x - y)).fold(0.0, |s, t| s + t)
+}
+fn same_bits<F: Fl>(a: &[F], b: &[F]) -> bool {
+    a.len() == b.len() && a.iter().zip(b).all(|(x, y)| x.beq(*y))
 }
 
 /// smallest eigenvalue of a symmetric matrix (cyclic Jacobi)
@@ -163,19 +258,32 @@ fn jacobi_min_eig(m: &[Vec<f64>]) -> f64 {
     (0..n).map(|i| a[i][i]).fold(f64::INFINITY, f64::min)
 }
 
-/// size / sum / column / diagonal / upper triangle of the kernel against the matrix `mat`
-fn oracle_views(ctx: &mut Ctx, class: &str, kernel: &Kernel<f64>, mat: &[Vec<f64>], ci: &[usize], cols: &[Option<Vec<f64>>]) {
+/// bitwise equality of two kernels (representation, stored pattern, values, method)
+fn same_kernel<F: Fl>(a: &Kernel<F>, b: &Kernel<F>) -> bool {
+    let inner = match (&a.inner, &b.inner) {
+        (KernelInner::Dense(x), KernelInner::Dense(y)) => x.dim() == y.dim() && x.iter().zip(y.iter()).all(|(u, v)| u.beq(*v)),
+        (KernelInner::Sparse(x), KernelInner::Sparse(y)) => x.shape() == y.shape() && x.proper_indptr().to_vec() == y.proper_indptr().to_vec() && x.indices() == y.indices() && same_bits(x.data(), y.data()),
+        _ => false,
+    };
+    inner && a.method == b.method
+}
+
+/// size / nsamples / nfeatures / is_linear / sum / column / diagonal / upper triangle of the kernel against the
+/// matrix `mat`, and the same through the borrowed kernel and its `to_owned`
+fn oracle_views<F: Fl>(ctx: &mut Ctx, class: &str, kernel: &Kernel<F>, mat: &[Vec<f64>], ci: &[usize], cols: &[Option<Vec<F>>], linear: bool) {
     let n = mat.len();
     ctx.require(kernel.size() == n, "view_size", class, || format!("size {} for {} records", kernel.size(), n));
+    ctx.require(kernel.nsamples() == n && kernel.nfeatures() == n, "view_size", class, || format!("nsamples {} nfeatures {} for a kernel of {} records", kernel.nsamples(), kernel.nfeatures(), n));
+    ctx.require(kernel.is_linear() == linear, "is_linear", class, || format!("is_linear() = {}", kernel.is_linear()));
     let sum = kernel.sum().to_vec();
     ctx.require(sum.len() == n, "view_sum", class, || format!("sum has {} entries", sum.len()));
     for i in 0..n.min(sum.len()) {
         let want = mat[i].iter().fold(0.0, |s, t| s + t);
         let scale: f64 = mat[i].iter().map(|v| v.abs()).fold(0.0, |s, t| s + t);
-        ctx.require(approx(sum[i], want, 1e-12, 1e-12 * scale), "view_sum", class, || format!("row {}: sum {} but the row of the matrix adds to {}", i, sum[i], want));
+        ctx.require(approx(sum[i].w(), want, tol::<F>(2), tol::<F>(n + 2) * scale), "view_sum", class, || format!("row {}: sum {} but the row of the matrix adds to {}", i, sum[i], want));
     }
     let diag = kernel.diagonal().to_vec();
-    ctx.require(diag.len() == n && (0..n).all(|i| neq(diag[i], mat[i][i])), "view_diagonal", class, || format!("diagonal {:?}", diag));
+    ctx.require(diag.len() == n && (0..n).all(|i| neq(diag[i].w(), mat[i][i])), "view_diagonal", class, || format!("diagonal {:?}", diag));
     let ut = kernel.to_upper_triangle();
     let mut want = vec![];
     for i in 0..n {
@@ -183,31 +291,31 @@ fn oracle_views(ctx: &mut Ctx, class: &str, kernel: &Kernel<f64>, mat: &[Vec<f64
             want.push(mat[i][j]);
         }
     }
-    ctx.require(ut.len() == want.len() && ut.iter().zip(&want).all(|(a, b)| neq(*a, *b)), "view_upper_triangle", class, || format!("upper triangle {:?} want {:?}", ut, want));
+    ctx.require(ut.len() == want.len() && ut.iter().zip(&want).all(|(a, b)| neq(a.w(), *b)), "view_upper_triangle", class, || format!("upper triangle {:?} want {:?}", ut, want));
     // the borrowed kernel (`KernelView`, separate `Inner` impls) reports the same
     let kv = kernel.view();
-    let same = |a: &[f64], b: &[f64]| a.len() == b.len() && a.iter().zip(b).all(|(x, y)| beq(*x, *y));
-    ctx.require(kv.size() == kernel.size(), "view_type_agrees", class, || "size of the borrowed kernel differs".to_string());
-    ctx.require(same(&kv.sum().to_vec(), &sum), "view_type_agrees", class, || format!("sum of the borrowed kernel {:?} vs {:?}", kv.sum(), sum));
-    ctx.require(same(&kv.diagonal().to_vec(), &diag), "view_type_agrees", class, || format!("diagonal of the borrowed kernel {:?} vs {:?}", kv.diagonal(), diag));
-    ctx.require(same(&kv.to_upper_triangle(), &ut), "view_type_agrees", class, || "upper triangle of the borrowed kernel differs".to_string());
+    ctx.require(kv.size() == kernel.size() && kv.nsamples() == n && kv.nfeatures() == n && kv.is_linear() == linear, "view_type_agrees", class, || "size / nsamples / nfeatures / is_linear of the borrowed kernel differ".to_string());
+    ctx.require(same_bits(&kv.sum().to_vec(), &sum), "view_type_agrees", class, || format!("sum of the borrowed kernel {:?} vs {:?}", kv.sum(), sum));
+    ctx.require(same_bits(&kv.diagonal().to_vec(), &diag), "view_type_agrees", class, || format!("diagonal of the borrowed kernel {:?} vs {:?}", kv.diagonal(), diag));
+    ctx.require(same_bits(&kv.to_upper_triangle(), &ut), "view_type_agrees", class, || "upper triangle of the borrowed kernel differs".to_string());
+    ctx.require(same_kernel(&kv.to_owned(), kernel), "view_type_agrees", class, || "view().to_owned() is not the kernel".to_string());
     for (i, c) in ci.iter().zip(cols) {
         if let Some(c) = c {
             let vc = catch_unwind(AssertUnwindSafe(|| kv.column(*i))).ok();
-            ctx.require(vc.as_ref().map(|v| same(v, c)).unwrap_or(false), "view_type_agrees", class, || format!("column {} of the borrowed kernel {:?} vs {:?}", i, vc, c));
+            ctx.require(vc.as_ref().map(|v| same_bits(v, c)).unwrap_or(false), "view_type_agrees", class, || format!("column {} of the borrowed kernel {:?} vs {:?}", i, vc, c));
         }
     }
     for (i, c) in ci.iter().zip(cols) {
         if *i < n {
             match c {
-                Some(c) => ctx.require(c.len() == n && (0..n).all(|j| neq(c[j], mat[j][*i])), "view_column", class, || format!("column {} = {:?}", i, c)),
+                Some(c) => ctx.require(c.len() == n && (0..n).all(|j| neq(c[j].w(), mat[j][*i])), "view_column", class, || format!("column {} = {:?}", i, c)),
                 None => ctx.fail("view_column", class, format!("column({}) panicked with {} records", i, n)),
             }
         }
     }
 }
 
-fn oracle_dot(ctx: &mut Ctx, class: &str, got: &Array2<f64>, mat: &[Vec<f64>], r: &[Vec<f64>], q: usize) {
+fn oracle_dot<F: Fl>(ctx: &mut Ctx, class: &str, got: &Array2<F>, mat: &[Vec<f64>], r: &[Vec<f64>], q: usize) {
     let n = mat.len();
     ctx.require(got.nrows() == n && got.ncols() == q, "view_dot", class, || format!("dot shape {:?}", got.dim()));
     for i in 0..n.min(got.nrows()) {
@@ -218,104 +326,226 @@ fn oracle_dot(ctx: &mut Ctx, class: &str, got: &Array2<f64>, mat: &[Vec<f64>], r
                 s += mat[i][j] * r[j][c];
                 sc += (mat[i][j] * r[j][c]).abs();
             }
-            ctx.require(approx(got[(i, c)], s, 1e-12, 1e-12 * sc), "view_dot", class, || format!("dot[{},{}] = {} want {}", i, c, got[(i, c)], s));
+            ctx.require(approx(got[(i, c)].w(), s, tol::<F>(2), tol::<F>(n + 2) * sc), "view_dot", class, || format!("dot[{},{}] = {} want {}", i, c, got[(i, c)], s));
         }
     }
 }
 
-fn columns(kernel: &Kernel<f64>, ci: &[usize]) -> Vec<Option<Vec<f64>>> {
+fn columns<F: Fl>(kernel: &Kernel<F>, ci: &[usize]) -> Vec<Option<Vec<F>>> {
     ci.iter().map(|i| catch_unwind(AssertUnwindSafe(|| kernel.column(*i))).ok()).collect()
 }
-fn show_cols(ex: bool, cols: &[Option<Vec<f64>>]) -> String {
-    cols.iter()
-        .map(|c| match c {
+/// `oob_free`: the sparse `column(i)` does not reject `i >= n` although the documentation says so; the statement
+/// speaks about the columns of the matrix only, so that request is written `oob` whatever happened (not compared)
+fn show_cols<F: Fl>(ex: bool, n: usize, ci: &[usize], cols: &[Option<Vec<F>>], oob_free: bool) -> String {
+    ci.iter()
+        .zip(cols)
+        .map(|(i, c)| match c {
+            _ if oob_free && *i >= n => "oob".to_string(),
             Some(c) if c.is_empty() => "-".to_string(),
-            Some(c) => fls(ex, c),
+            Some(c) => list(c.iter(), |x| flz(ex, *x)),
             None => "panic".to_string(),
         })
         .collect::<Vec<_>>()
         .join(";")
 }
 
-fn op_dense(em: &mut Em, x: &Array2<f64>, km: Km, ci: &[usize]) {
+// ------------------------------------------------------------------------- calling forms and layouts
+
+/// the construction wrappers of `KernelParams` (lib.rs): six `Transformer` impls and `Kernel::new`
+const FORMS: [&str; 7] = ["view", "ref_array", "ref_view", "new", "dataset", "ref_dataset", "ref_dataset_view"];
+/// memory layouts of the record matrix handed over
+const LAYS: [&str; 4] = ["c", "f", "strided", "reversed"];
+
+#[derive(Clone, Copy, Debug)]
+struct Call {
+    form: usize,
+    lay: usize,
+}
+impl Call {
+    fn enc(&self) -> String {
+        format!("form={} lay={}", FORMS[self.form], LAYS[self.lay])
+    }
+    fn draw(rng: &mut Rng) -> Call {
+        Call { form: rng.below(FORMS.len()), lay: if rng.coin() { 0 } else { rng.below(LAYS.len()) } }
+    }
+}
+
+/// an owned array holding the values of `x` in the requested memory layout
+fn laid_out<F: Fl>(x: &Array2<F>, lay: usize) -> Array2<F> {
+    let (n, p) = x.dim();
+    let out = match lay {
+        0 => x.clone(),
+        1 => {
+            let mut a = Array2::from_elem((n, p).f(), F::cast(7.5));
+            a.assign(x);
+            a
+        }
+        2 => {
+            let mut big = Array2::from_elem((2 * n, 2 * p), F::cast(7.5));
+            let r0 = n.min(1);
+            big.slice_mut(s![r0..;2, ..;2]).assign(x);
+            big.slice_move(s![r0..;2, ..;2])
+        }
+        _ => {
+            let mut big = Array2::from_elem((n, p), F::cast(7.5));
+            big.slice_mut(s![..;-1, ..;-1]).assign(x);
+            big.slice_move(s![..;-1, ..;-1])
+        }
+    };
+    assert!(out.dim() == x.dim() && out.iter().zip(x.iter()).all(|(a, b)| a.beq(*b)));
+    out
+}
+
+/// the kernel built through the calling form; the flag says whether a dataset form handed the targets through
+fn build<F: Fl, N: NearestNeighbour>(params: &KernelParams<F, N>, x: &Array2<F>, call: Call) -> (Kernel<F>, bool) {
+    let xl = laid_out(x, call.lay);
+    let tg: Array1<usize> = (0..x.nrows()).map(|i| (i * 7 + 3) % 11).collect();
+    match call.form {
+        0 => (params.transform(xl.view()), true),
+        1 => (params.transform(&xl), true),
+        2 => {
+            let v = xl.view();
+            (params.transform(&v), true)
+        }
+        3 => (Kernel::new(xl.view(), params), true),
+        4 => {
+            let d = params.transform(DatasetBase::new(xl, tg.clone()));
+            let ok = d.targets == tg;
+            (d.records, ok)
+        }
+        5 => {
+            let ds = DatasetBase::new(xl, tg.clone());
+            let d = params.transform(&ds);
+            let ok = d.targets == tg;
+            (d.records, ok)
+        }
+        _ => {
+            let ds = DatasetBase::new(xl, tg.clone());
+            let dv = ds.view();
+            let d = params.transform(&dv);
+            let ok = d.targets == tg;
+            (d.records, ok)
+        }
+    }
+}
+
+fn op_dense<F: Fl>(em: &mut Em, x: &Array2<F>, km: Km<F>, ci: &[usize], call: Call) {
     let rows = rows_of(x);
-    let op = format!("dense m={} X={} ci={}", km.enc(), enc_rows(&rows), list(ci.iter(), |i| i.to_string()));
-    let class = format!("dense:{}", km.name());
+    let rw = widen(&rows);
+    let op = format!("dense{} m={} X={} ci={} {}", F::T, km.enc(), enc_rows(&rows), list(ci.iter(), |i| i.to_string()), call.enc());
+    let class = format!("dense{}:{}", F::T, km.name());
     let ex = km.exact();
     em.case_valid(op, &class, |ctx| {
         let n = rows.len();
-        let kernel = Kernel::<f64>::params().method(km.linfa()).transform(x.view());
-        let k: Vec<Vec<f64>> = match &kernel.inner {
+        let (kernel, tg_ok) = build(&Kernel::<F>::params().method(km.linfa()), x, call);
+        ctx.require(tg_ok, "form_targets", &class, || format!("the {} form did not hand the targets through", FORMS[call.form]));
+        let kf: Vec<Vec<F>> = match &kernel.inner {
             KernelInner::Dense(a) => rows_of(a),
             _ => {
                 ctx.fail("entry", &class, "dense parameters built a sparse kernel".into());
                 vec![]
             }
         };
+        let k = widen(&kf);
         ctx.require(k.len() == n && k.iter().all(|r| r.len() == n), "entry", &class, || format!("matrix is not {0}x{0}", n));
         let mut finite = true;
         for i in 0..k.len() {
             for j in 0..k.len() {
-                let want = km.eval(&rows[i], &rows[j]);
+                let want = km.eval(&rw[i], &rw[j]);
                 finite &= k[i][j].is_finite();
-                ctx.require(km.entry_ok(k[i][j], &rows[i], &rows[j]), "entry", &class, || format!("K[{},{}] = {} but the kernel function gives {}", i, j, k[i][j], want));
+                ctx.require(km.entry_ok(k[i][j], &rw[i], &rw[j]), "entry", &class, || format!("K[{},{}] = {} but the kernel function gives {}", i, j, k[i][j], want));
                 ctx.require(beq(k[i][j], k[j][i]), "symmetric", &class, || format!("K[{},{}] = {} but K[{},{}] = {}", i, j, k[i][j], j, i, k[j][i]));
             }
             if let Km::G(_) = km {
                 ctx.require(k[i][i] == 1.0, "gaussian_diagonal", &class, || format!("K[{0},{0}] = {1}", i, k[i][i]));
             }
         }
-        // positive semidefinite: Gaussian (statement) and linear (theorem); numerically, v = eigenvector of the least eigenvalue
+        // positive semidefinite: Gaussian (statement) and linear (theorem); numerically, least Jacobi eigenvalue
         if finite && n > 0 && n <= 24 && !matches!(km, Km::P(_, _)) {
             let tr: f64 = (0..n).map(|i| k[i][i].abs()).sum();
             let lmin = jacobi_min_eig(&k);
-            ctx.require(lmin >= -1e-9 * tr.max(1.0), "positive_semidefinite", &class, || format!("least eigenvalue {} (trace {})", lmin, tr));
+            ctx.require(lmin >= -(1e-9f64.max(64.0 * F::EPS)) * tr.max(1.0), "positive_semidefinite", &class, || format!("least eigenvalue {} (trace {})", lmin, tr));
         }
         let cols = columns(&kernel, ci);
-        oracle_views(ctx, &class, &kernel, &k, ci, &cols);
+        oracle_views(ctx, &class, &kernel, &k, ci, &cols, ex);
         let sum = kernel.sum().to_vec();
         let diag = kernel.diagonal().to_vec();
         let ut = kernel.to_upper_triangle();
         format!(
-            "ok size={} K={} sum={} diag={} ut={} col={}",
+            "ok size={} ns={} nf={} lin={} K={} sum={} diag={} ut={} col={}",
             kernel.size(),
-            list2(k.iter().map(|r| r.iter()), |v| fl(ex, *v)),
+            kernel.nsamples(),
+            kernel.nfeatures(),
+            kernel.is_linear(),
+            list2(kf.iter().map(|r| r.iter()), |v| fl(ex, *v)),
             fls(ex, &sum),
             fls(ex, &diag),
             fls(ex, &ut),
-            show_cols(ex, &cols)
+            show_cols(ex, n, ci, &cols, false)
         )
     });
 }
 
-fn op_ddot(em: &mut Em, x: &Array2<f64>, km: Km, r: &Array2<f64>) {
+fn op_ddot<F: Fl>(em: &mut Em, x: &Array2<F>, km: Km<F>, r: &Array2<F>, call: Call, rlay: usize) {
     let rows = rows_of(x);
     let rr = rows_of(r);
     let q = r.ncols();
-    let op = format!("ddot m={} X={} q={} R={}", km.enc(), enc_rows(&rows), q, enc_rows(&rr));
-    let class = format!("dense:{}", km.name());
+    let op = format!("ddot{} m={} X={} q={} R={} {} rlay={}", F::T, km.enc(), enc_rows(&rows), q, enc_rows(&rr), call.enc(), LAYS[rlay]);
+    let class = format!("dense{}:{}", F::T, km.name());
     em.case_valid(op, &class, |ctx| {
-        let kernel = Kernel::<f64>::params().method(km.linfa()).transform(x.view());
+        let (kernel, _) = build(&Kernel::<F>::params().method(km.linfa()), x, call);
         let k: Vec<Vec<f64>> = match &kernel.inner {
-            KernelInner::Dense(a) => rows_of(a),
+            KernelInner::Dense(a) => widen(&rows_of(a)),
             _ => vec![],
         };
-        let got = kernel.dot(&r.view());
-        oracle_dot(ctx, &class, &got, &k, &rr, q);
-        let gv = kernel.view().dot(&r.view());
-        ctx.require(gv.dim() == got.dim() && gv.iter().zip(got.iter()).all(|(a, b)| beq(*a, *b)), "view_type_agrees", &class, || "dot of the borrowed kernel differs".to_string());
+        let rl = laid_out(r, rlay);
+        let got = kernel.dot(&rl.view());
+        oracle_dot(ctx, &class, &got, &k, &widen(&rr), q);
+        let gv = kernel.view().dot(&rl.view());
+        ctx.require(gv.dim() == got.dim() && gv.iter().zip(got.iter()).all(|(a, b)| a.beq(*b)), "view_type_agrees", &class, || "dot of the borrowed kernel differs".to_string());
         format!("ok {}", list2(rows_of(&got).iter().map(|r| r.iter()), |v| fl(false, *v)))
     });
 }
 
-const IDX: [(CommonNearestNeighbour, &str); 3] = [
-    (CommonNearestNeighbour::LinearSearch, "linear"),
-    (CommonNearestNeighbour::KdTree, "kdtree"),
-    (CommonNearestNeighbour::BallTree, "balltree"),
-];
+// ------------------------------------------------------------------------- sparse kernels
+
+/// neighbour indices: the three `CommonNearestNeighbour` variants, the default of `Kernel::params()`, and the three
+/// index types of linfa-nn handed to `params_with_nn` directly
+const IDX: [&str; 7] = ["linear", "kdtree", "balltree", "default", "KdTree", "BallTree", "LinearSearch"];
+
+macro_rules! with_nn {
+    ($which:expr, $nn:ident => $body:expr) => {
+        match $which {
+            0 => {
+                let $nn = CommonNearestNeighbour::LinearSearch;
+                $body
+            }
+            1 | 3 => {
+                let $nn = CommonNearestNeighbour::KdTree;
+                $body
+            }
+            2 => {
+                let $nn = CommonNearestNeighbour::BallTree;
+                $body
+            }
+            4 => {
+                let $nn = KdTree;
+                $body
+            }
+            5 => {
+                let $nn = BallTree;
+                $body
+            }
+            _ => {
+                let $nn = LinearSearch;
+                $body
+            }
+        }
+    };
+}
 
 /// what the real index returns for `k_nearest(row, k+1)`, row by row
-fn neighbours(x: &Array2<f64>, k: usize, idx: &CommonNearestNeighbour) -> Option<Vec<Vec<usize>>> {
+fn neighbours_of<F: Fl, N: NearestNeighbour>(x: &Array2<F>, k: usize, idx: &N) -> Option<Vec<Vec<usize>>> {
     catch_unwind(AssertUnwindSafe(|| {
         let nn = idx.from_batch(x, L2Dist).ok()?;
         let mut out = vec![];
@@ -327,23 +557,53 @@ fn neighbours(x: &Array2<f64>, k: usize, idx: &CommonNearestNeighbour) -> Option
     .ok()
     .flatten()
 }
+fn neighbours<F: Fl>(x: &Array2<F>, k: usize, which: usize) -> Option<Vec<Vec<usize>>> {
+    with_nn!(which, nn => neighbours_of(x, k, &nn))
+}
 
-fn csr_of(kernel: &Kernel<f64>) -> Option<(Vec<usize>, Vec<usize>, Vec<f64>)> {
+/// the sparse kernel through index `which` and the calling form
+fn build_sparse<F: Fl>(x: &Array2<F>, km: Km<F>, k: usize, which: usize, call: Call) -> (Kernel<F>, bool) {
+    match which {
+        // the `nn_algo` setter
+        2 => build(&Kernel::<F>::params().nn_algo(CommonNearestNeighbour::BallTree).kind(KernelType::Sparse(k)).method(km.linfa()), x, call),
+        // the default index of `Kernel::params()`
+        3 => build(&Kernel::<F>::params().kind(KernelType::Sparse(k)).method(km.linfa()), x, call),
+        w => with_nn!(w, nn => build(&Kernel::<F>::params_with_nn(nn).kind(KernelType::Sparse(k)).method(km.linfa()), x, call)),
+    }
+}
+
+type CsrT<F> = (Vec<usize>, Vec<usize>, Vec<F>);
+
+fn csr_of<F: Fl>(kernel: &Kernel<F>) -> Option<CsrT<F>> {
     match &kernel.inner {
         KernelInner::Sparse(m) => Some((m.proper_indptr().to_vec(), m.indices().to_vec(), m.data().to_vec())),
         _ => None,
     }
 }
-fn csr_to_dense(n: usize, csr: &(Vec<usize>, Vec<usize>, Vec<f64>)) -> Vec<Vec<f64>> {
+fn csr_to_dense<F: Fl>(n: usize, csr: &CsrT<F>) -> Vec<Vec<f64>> {
     let mut m = vec![vec![0.0; n]; n];
     for i in 0..n.min(csr.0.len().saturating_sub(1)) {
         for p in csr.0[i]..csr.0[i + 1] {
             if csr.1[p] < n {
-                m[i][csr.1[p]] = csr.2[p];
+                m[i][csr.1[p]] = csr.2[p].w();
             }
         }
     }
     m
+}
+/// the stored triples with every row ordered by column (the statement does not promise a storage order)
+fn csr_sorted<F: Fl>(csr: &CsrT<F>) -> CsrT<F> {
+    let mut idx = vec![];
+    let mut dat = vec![];
+    for i in 0..csr.0.len().saturating_sub(1) {
+        let mut row: Vec<(usize, F)> = (csr.0[i]..csr.0[i + 1]).map(|p| (csr.1[p], csr.2[p])).collect();
+        row.sort_by_key(|e| e.0);
+        for (j, v) in row {
+            idx.push(j);
+            dat.push(v);
+        }
+    }
+    (csr.0.clone(), idx, dat)
 }
 
 /// (forced, allowed): `j` is among the `k` nearest other points of `i` under every / under some tie-break
@@ -375,13 +635,32 @@ fn knn_sets(rows: &[Vec<f64>], k: usize, tol_rel: f64) -> (Vec<Vec<bool>>, Vec<V
     (forced, allowed, tie_free)
 }
 
-#[allow(clippy::too_many_arguments)]
-fn op_sparse(em: &mut Em, x: &Array2<f64>, km: Km, k: usize, which: usize, ci: &[usize], lattice: bool, dot_rhs: Option<&Array2<f64>>) {
-    let rows = rows_of(x);
+/// like `knn_sets` but over all points including the query row itself (what `k_nearest` sees)
+fn knn_sets_self(rows: &[Vec<f64>], k: usize, tol_rel: f64) -> (Vec<Vec<bool>>, Vec<Vec<bool>>) {
     let n = rows.len();
-    let (idx, idx_name) = (&IDX[which].0, IDX[which].1);
+    let mut forced = vec![vec![false; n]; n];
+    let mut allowed = vec![vec![false; n]; n];
+    for i in 0..n {
+        let d: Vec<f64> = (0..n).map(|l| sqd(&rows[i], &rows[l])).collect();
+        for j in 0..n {
+            let tol = tol_rel * (1.0 + d[j]);
+            let le = (0..n).filter(|l| d[*l] <= d[j] + tol).count();
+            let lt = (0..n).filter(|l| d[*l] < d[j] - tol).count();
+            forced[i][j] = le <= k;
+            allowed[i][j] = lt < k;
+        }
+    }
+    (forced, allowed)
+}
+
+#[allow(clippy::too_many_arguments)]
+fn op_sparse<F: Fl>(em: &mut Em, x: &Array2<F>, km: Km<F>, k: usize, which: usize, ci: &[usize], knn_tol: f64, call: Call, dot_rhs: Option<(&Array2<F>, usize)>) {
+    let rows = rows_of(x);
+    let rw = widen(&rows);
+    let n = rows.len();
+    let idx_name = IDX[which];
     let valid = k > 0 && k < n;
-    let nb = neighbours(x, k, idx);
+    let nb = neighbours(x, k, which);
     if valid && nb.is_none() {
         em.count("sparse:index_unavailable");
         return;
@@ -389,15 +668,15 @@ fn op_sparse(em: &mut Em, x: &Array2<f64>, km: Km, k: usize, which: usize, ci: &
     let nb = nb.unwrap_or_default();
     let nbs = list2(nb.iter().map(|r| r.iter()), |i| i.to_string());
     let ex = km.exact();
-    let class = format!("sparse:{}:{}", km.name(), idx_name);
+    let class = format!("sparse{}:{}:{}", F::T, km.name(), idx_name);
     let head = format!("m={} k={} X={} nb={} idx={}", km.enc(), k, enc_rows(&rows), nbs, idx_name);
     let op = match dot_rhs {
-        None => format!("sparse {} ci={}", head, list(ci.iter(), |i| i.to_string())),
-        Some(r) => format!("sdot {} q={} R={}", head, r.ncols(), enc_rows(&rows_of(r))),
+        None => format!("sparse{} {} ci={} {}", F::T, head, list(ci.iter(), |i| i.to_string()), call.enc()),
+        Some((r, rlay)) => format!("sdot{} {} q={} R={} {} rlay={}", F::T, head, r.ncols(), enc_rows(&rows_of(r)), call.enc(), LAYS[rlay]),
     };
     let body = |ctx: &mut Ctx| {
-        let params = Kernel::<f64>::params_with_nn(idx.clone()).kind(KernelType::Sparse(k)).method(km.linfa());
-        let kernel = params.transform(x.view());
+        let (kernel, tg_ok) = build_sparse(x, km, k, which, call);
+        ctx.require(tg_ok, "form_targets", &class, || format!("the {} form did not hand the targets through", FORMS[call.form]));
         let csr = match csr_of(&kernel) {
             Some(c) => c,
             None => {
@@ -406,16 +685,17 @@ fn op_sparse(em: &mut Em, x: &Array2<f64>, km: Km, k: usize, which: usize, ci: &
             }
         };
         let mat = csr_to_dense(n, &csr);
-        if let Some(r) = dot_rhs {
-            let got = kernel.dot(&r.view());
-            oracle_dot(ctx, &class, &got, &mat, &rows_of(r), r.ncols());
-            let gv = kernel.view().dot(&r.view());
-            ctx.require(gv.dim() == got.dim() && gv.iter().zip(got.iter()).all(|(a, b)| beq(*a, *b)), "view_type_agrees", &class, || "dot of the borrowed kernel differs".to_string());
+        if let Some((r, rlay)) = dot_rhs {
+            let rl = laid_out(r, rlay);
+            let got = kernel.dot(&rl.view());
+            oracle_dot(ctx, &class, &got, &mat, &widen(&rows_of(r)), r.ncols());
+            let gv = kernel.view().dot(&rl.view());
+            ctx.require(gv.dim() == got.dim() && gv.iter().zip(got.iter()).all(|(a, b)| a.beq(*b)), "view_type_agrees", &class, || "dot of the borrowed kernel differs".to_string());
             return format!("ok {}", list2(rows_of(&got).iter().map(|r| r.iter()), |v| fl(false, *v)));
         }
         // contract of the external index (C07): k+1 distinct in-range indices that are nearest
-        let (forced, allowed, tie_free) = knn_sets(&rows, k, if lattice { 0.0 } else { 1e-9 });
-        let (forced1, allowed1, _) = knn_sets_self(&rows, k + 1, if lattice { 0.0 } else { 1e-9 });
+        let (forced, allowed, tie_free) = knn_sets(&rw, k, knn_tol);
+        let (forced1, allowed1) = knn_sets_self(&rw, k + 1, knn_tol);
         for (m, r) in nb.iter().enumerate() {
             let mut s = r.clone();
             s.sort_unstable();
@@ -426,12 +706,15 @@ fn op_sparse(em: &mut Em, x: &Array2<f64>, km: Km, k: usize, which: usize, ci: &
                 ctx.require(r.iter().all(|j| allowed1[m][*j]) && (0..n).all(|j| !forced1[m][j] || r.contains(&j)), "nn_contract", &class, || format!("k_nearest(row {}, {}) = {:?} are not the nearest points", m, k + 1, r));
             }
         }
-        // stored pattern: rows sorted, diagonal present, exactly the symmetric closure of the kNN relation
+        // stored pattern: a well-formed CSR matrix (columns in range, none twice; the storage order inside a row is
+        // not part of the statement), diagonal present, exactly the symmetric closure of the kNN relation
         let mut stored = vec![vec![false; n]; n];
         ctx.require(csr.0.len() == n + 1, "sparse_support", &class, || format!("indptr {:?}", csr.0));
         for i in 0..n.min(csr.0.len().saturating_sub(1)) {
             let cols = &csr.1[csr.0[i]..csr.0[i + 1]];
-            ctx.require(cols.windows(2).all(|w| w[0] < w[1]) && cols.iter().all(|j| *j < n), "sparse_support", &class, || format!("row {} has columns {:?}", i, cols));
+            let mut sc = cols.to_vec();
+            sc.sort_unstable();
+            ctx.require(sc.windows(2).all(|w| w[0] < w[1]) && cols.iter().all(|j| *j < n), "sparse_support", &class, || format!("row {} has columns {:?}", i, cols));
             for j in cols {
                 if *j < n {
                     stored[i][*j] = true;
@@ -453,50 +736,53 @@ fn op_sparse(em: &mut Em, x: &Array2<f64>, km: Km, k: usize, which: usize, ci: &
                     ctx.require(!stored[i][j], "sparse_support", &class, || format!("({},{}) is stored but neither point is among the other's {} nearest", i, j, k));
                 }
                 if stored[i][j] {
-                    let want = km.eval(&rows[i], &rows[j]);
-                    ctx.require(km.entry_ok(mat[i][j], &rows[i], &rows[j]), "sparse_entry", &class, || format!("stored ({},{}) = {} but the kernel function gives {}", i, j, mat[i][j], want));
+                    let want = km.eval(&rw[i], &rw[j]);
+                    ctx.require(km.entry_ok(mat[i][j], &rw[i], &rw[j]), "sparse_entry", &class, || format!("stored ({},{}) = {} but the kernel function gives {}", i, j, mat[i][j], want));
                     ctx.require(stored[j][i] && beq(mat[i][j], mat[j][i]), "symmetric", &class, || format!("stored ({},{}) = {} vs ({},{}) = {}", i, j, mat[i][j], j, i, mat[j][i]));
                 }
             }
             if stored[i][i] {
-                let want = km.eval(&rows[i], &rows[i]);
-                ctx.require(km.entry_ok(mat[i][i], &rows[i], &rows[i]), "sparse_entry", &class, || format!("stored ({0},{0}) = {1} but the kernel function gives {2}", i, mat[i][i], want));
+                let want = km.eval(&rw[i], &rw[i]);
+                ctx.require(km.entry_ok(mat[i][i], &rw[i], &rw[i]), "sparse_entry", &class, || format!("stored ({0},{0}) = {1} but the kernel function gives {2}", i, mat[i][i], want));
             }
         }
         // the stored values are those of the dense kernel of the same records
-        let dense = Kernel::<f64>::params().method(km.linfa()).transform(x.view());
+        let dense = Kernel::<F>::params().method(km.linfa()).transform(x.view());
         if let KernelInner::Dense(a) = &dense.inner {
             for i in 0..n {
                 for j in 0..n {
                     if stored[i][j] {
-                        ctx.require(beq(mat[i][j], a[(i, j)]), "sparse_entry", &class, || format!("stored ({},{}) = {} differs from the dense kernel's {}", i, j, mat[i][j], a[(i, j)]));
+                        ctx.require(beq(mat[i][j], a[(i, j)].w()), "sparse_entry", &class, || format!("stored ({},{}) = {} differs from the dense kernel's {}", i, j, mat[i][j], a[(i, j)]));
                     }
                 }
             }
         }
         // whichever neighbour index is used
-        if tie_free {
-            if which != 0 {
-                let other = Kernel::<f64>::params_with_nn(IDX[0].0.clone()).kind(KernelType::Sparse(k)).method(km.linfa()).transform(x.view());
-                let oc = csr_of(&other).unwrap_or_default();
-                ctx.require(oc.0 == csr.0 && oc.1 == csr.1 && oc.2.iter().zip(&csr.2).all(|(a, b)| beq(*a, *b)), "index_independent", &class, || format!("linear search stores {:?}/{:?}, {} stores {:?}/{:?}", oc.0, oc.1, idx_name, csr.0, csr.1));
-            }
+        if tie_free && which != 0 {
+            let (other, _) = build_sparse(x, km, k, 0, Call { form: 0, lay: 0 });
+            let oc = csr_sorted(&csr_of(&other).unwrap_or_default());
+            let cs = csr_sorted(&csr);
+            ctx.require(oc.0 == cs.0 && oc.1 == cs.1 && same_bits(&oc.2, &cs.2), "index_independent", &class, || format!("linear search stores {:?}/{:?}, {} stores {:?}/{:?}", oc.0, oc.1, idx_name, cs.0, cs.1));
         }
         let cols = columns(&kernel, ci);
-        oracle_views(ctx, &class, &kernel, &mat, ci, &cols);
+        oracle_views(ctx, &class, &kernel, &mat, ci, &cols, ex);
         let sum = kernel.sum().to_vec();
         let diag = kernel.diagonal().to_vec();
         let ut = kernel.to_upper_triangle();
+        let cs = csr_sorted(&csr);
         format!(
-            "ok size={} indptr={} indices={} data={} sum={} diag={} ut={} col={}",
+            "ok size={} ns={} nf={} lin={} indptr={} indices={} data={} sum={} diag={} ut={} col={}",
             kernel.size(),
-            list(csr.0.iter(), |v| v.to_string()),
-            list(csr.1.iter(), |v| v.to_string()),
-            fls(ex, &csr.2),
+            kernel.nsamples(),
+            kernel.nfeatures(),
+            kernel.is_linear(),
+            list(cs.0.iter(), |v| v.to_string()),
+            list(cs.1.iter(), |v| v.to_string()),
+            fls(ex, &cs.2),
             fls(ex, &sum),
             fls(ex, &diag),
             fls(ex, &ut),
-            show_cols(ex, &cols)
+            show_cols(ex, n, ci, &cols, true)
         )
     };
     if valid {
@@ -504,24 +790,6 @@ fn op_sparse(em: &mut Em, x: &Array2<f64>, km: Km, k: usize, which: usize, ci: &
     } else {
         em.case(op, body)
     }
-}
-
-/// like `knn_sets` but over all points including the query row itself (what `k_nearest` sees)
-fn knn_sets_self(rows: &[Vec<f64>], k: usize, tol_rel: f64) -> (Vec<Vec<bool>>, Vec<Vec<bool>>, bool) {
-    let n = rows.len();
-    let mut forced = vec![vec![false; n]; n];
-    let mut allowed = vec![vec![false; n]; n];
-    for i in 0..n {
-        let d: Vec<f64> = (0..n).map(|l| sqd(&rows[i], &rows[l])).collect();
-        for j in 0..n {
-            let tol = tol_rel * (1.0 + d[j]);
-            let le = (0..n).filter(|l| d[*l] <= d[j] + tol).count();
-            let lt = (0..n).filter(|l| d[*l] < d[j] - tol).count();
-            forced[i][j] = le <= k;
-            allowed[i][j] = lt < k;
-        }
-    }
-    (forced, allowed, true)
 }
 
 // ---------------------------------------------------------------------------------- hierarchical
@@ -537,14 +805,29 @@ const METHODS: [(Method, &str); 7] = [
 ];
 
 #[derive(Clone, Copy, Debug)]
-enum Crit {
+enum Crit<F> {
     Num(usize),
-    Dist(f64),
+    Dist(F),
+}
+impl<F: Fl> Crit<F> {
+    /// inside the property's quantifier ("all cluster counts and thresholds"): a count of at least one, a finite
+    /// non-negative threshold; everything else is what the parameter guard is there to reject
+    fn valid(&self) -> bool {
+        match self {
+            Crit::Num(c) => *c >= 1,
+            Crit::Dist(d) => d.is_finite() && d.is_sign_positive(),
+        }
+    }
 }
 
-const THR: f64 = 1e-6;
-fn to_dist(x: f64) -> f64 {
-    if x > THR { -x.ln() } else { -THR.ln() }
+/// the calling forms of the clustering: unchecked parameters on a kernel / on a dataset of a kernel
+/// (`TransformGuard`), `check()` resp. `check_ref()` first and then the checked parameters
+const HFORMS: [&str; 4] = ["kernel", "dataset", "checked", "checked_ref_dataset"];
+
+/// `if x > threshold { -x.ln() } else { -threshold.ln() }` with `threshold = F::cast(1e-6)`, in the kernel's type
+fn to_dist<F: Fl>(x: F) -> F {
+    let thr = F::cast(1e-6);
+    if x > thr { -x.ln() } else { -thr.ln() }
 }
 fn canon(labels: &[usize]) -> Vec<usize> {
     labels.iter().map(|l| labels.iter().position(|m| m == l).unwrap()).collect()
@@ -576,7 +859,7 @@ impl Uf {
         canon(&l)
     }
 }
-type Steps = Vec<(usize, usize, f64, usize)>;
+type Steps<F> = Vec<(usize, usize, F, usize)>;
 
 fn dmat(n: usize, dist: &[f64]) -> Vec<Vec<f64>> {
     let mut d = vec![vec![0.0; n]; n];
@@ -592,17 +875,20 @@ fn dmat(n: usize, dist: &[f64]) -> Vec<Vec<f64>> {
 }
 
 /// the dendrogram contract the model's theorems assume, checked on what `kodama` returned
-fn op_linkage(em: &mut Em, n: usize, dist: &[f64], steps: &Steps, mi: usize, desc: &str) {
+fn op_linkage<F: Fl>(em: &mut Em, n: usize, dist: &[F], steps: &Steps<F>, mi: usize, desc: &str) {
     let (_, mname) = METHODS[mi];
-    let op = format!("#linkage meth={} n={} kernel={} dist={}", mname, n, desc, list(dist.iter(), |v| hex64(*v)));
-    let class = format!("hier:{}", mname);
+    let op = format!("#linkage{} meth={} n={} kernel={} dist={}", F::T, mname, n, desc, list(dist.iter(), |v| v.hx()));
+    let class = format!("hier{}:{}", F::T, mname);
     em.case(op, |ctx| {
         ctx.require(steps.len() == n.saturating_sub(1), "kodama_contract", &class, || format!("{} steps for {} observations", steps.len(), n));
-        let d = dmat(n, dist);
+        let d = dmat(n, &wv(dist));
+        // the Lance-Williams updates carry the rounding of the largest distance involved
+        let dmax = dist.iter().map(|v| v.w().abs()).fold(0.0, f64::max);
         let mut members: Vec<Option<Vec<usize>>> = (0..n).map(|i| Some(vec![i])).collect();
         let mono = mi <= 4;
         let mut prev = f64::NEG_INFINITY;
         for (t, (a, b, dis, size)) in steps.iter().enumerate() {
+            let dis = dis.w();
             let live = |c: usize| c < members.len() && members[c].is_some();
             if !(a != b && live(*a) && live(*b)) {
                 ctx.fail("kodama_contract", &class, format!("step {} merges {} and {} which are not two live clusters", t, a, b));
@@ -611,22 +897,24 @@ fn op_linkage(em: &mut Em, n: usize, dist: &[f64], steps: &Steps, mi: usize, des
             let (ma, mb) = (members[*a].take().unwrap(), members[*b].take().unwrap());
             ctx.require(*size == ma.len() + mb.len(), "kodama_contract", &class, || format!("step {} size {} for clusters of {} and {}", t, size, ma.len(), mb.len()));
             if mono {
-                ctx.require(*dis >= prev, "kodama_contract", &class, || format!("step {} dissimilarity {} after {}", t, dis, prev));
-                prev = *dis;
+                // ward / weighted / average recompute dissimilarities: monotone up to the rounding of the type
+                let slack = if mi <= 1 { 0.0 } else { tol::<F>(4) * prev.abs() };
+                ctx.require(dis >= prev - slack, "kodama_contract", &class, || format!("step {} dissimilarity {} after {}", t, dis, prev));
+                prev = dis.max(prev);
             }
             let pair: Vec<f64> = ma.iter().flat_map(|i| mb.iter().map(|j| d[*i][*j]).collect::<Vec<_>>()).collect();
             match mi {
                 0 => {
                     let w = pair.iter().cloned().fold(f64::INFINITY, f64::min);
-                    ctx.require(*dis == w, "kodama_contract", &class, || format!("single-linkage step {}: {} but the closest pair is at {}", t, dis, w));
+                    ctx.require(dis == w, "kodama_contract", &class, || format!("single-linkage step {}: {} but the closest pair is at {}", t, dis, w));
                 }
                 1 => {
                     let w = pair.iter().cloned().fold(f64::NEG_INFINITY, f64::max);
-                    ctx.require(*dis == w, "kodama_contract", &class, || format!("complete-linkage step {}: {} but the farthest pair is at {}", t, dis, w));
+                    ctx.require(dis == w, "kodama_contract", &class, || format!("complete-linkage step {}: {} but the farthest pair is at {}", t, dis, w));
                 }
                 2 => {
                     let w = pair.iter().sum::<f64>() / pair.len() as f64;
-                    ctx.require(approx(*dis, w, 1e-9, 1e-12), "kodama_contract", &class, || format!("average-linkage step {}: {} but the mean pair distance is {}", t, dis, w));
+                    ctx.require(approx(dis, w, (1e-9f64).max(tol::<F>(n + 4)), 1e-12 + tol::<F>(n + 4) * dmax), "kodama_contract", &class, || format!("average-linkage step {}: {} but the mean pair distance is {}", t, dis, w));
                 }
                 _ => {}
             }
@@ -639,53 +927,90 @@ fn op_linkage(em: &mut Em, n: usize, dist: &[f64], steps: &Steps, mi: usize, des
 }
 
 #[allow(clippy::too_many_arguments)]
-fn op_hier(em: &mut Em, kernel: &Kernel<f64>, ut: &[f64], dist: &[f64], steps: &Steps, mi: usize, crit: Crit, desc: &str) {
+fn op_hier<F: Fl>(em: &mut Em, kernel: &Kernel<F>, ut: &[F], dist: &[F], steps: &Steps<F>, mi: usize, crit: Crit<F>, desc: &str, form: usize) {
     let (method, mname) = METHODS[mi];
     let n = kernel.size();
     let cs = match crit {
         Crit::Num(c) => format!("n:{}", c),
-        Crit::Dist(d) => format!("d:{}", hex64(d)),
+        Crit::Dist(d) => format!("d:{}", d.hx()),
     };
     let op = format!(
-        "hier n={} meth={} kernel={} steps={} dis={} crit={} ut={}",
+        "hier{} n={} meth={} kernel={} steps={} dis={} crit={} ut={} form={}",
+        F::T,
         n,
         mname,
         desc,
         list2(steps.iter().map(|s| vec![s.0, s.1, s.3]), |v| v.to_string()),
-        list(steps.iter(), |s| hex64(s.2)),
+        list(steps.iter(), |s| s.2.hx()),
         cs,
-        list(ut.iter(), |v| hex64(*v))
+        list(ut.iter(), |v| v.hx()),
+        HFORMS[form]
     );
-    let class = format!("hier:{}:{}", mname, if let Crit::Num(_) = crit { "count" } else { "threshold" });
-    em.case_valid(op, &class, |ctx| {
+    let class = format!("hier{}:{}:{}", F::T, mname, if let Crit::Num(_) = crit { "count" } else { "threshold" });
+    let valid = crit.valid();
+    let body = |ctx: &mut Ctx| {
         let params = match crit {
-            Crit::Num(c) => HierarchicalCluster::default().with_method(method).num_clusters(c),
-            Crit::Dist(d) => HierarchicalCluster::default().with_method(method).max_distance(d),
+            Crit::Num(c) => HierarchicalCluster::<F>::default().with_method(method).num_clusters(c),
+            Crit::Dist(d) => HierarchicalCluster::<F>::default().with_method(method).max_distance(d),
         };
-        let res = match params.transform(kernel.clone()) {
-            Ok(r) => r,
-            Err(e) => {
-                ctx.fail("no_error", &class, format!("valid criterion rejected: {}", e));
-                return "err".to_string();
+        let tg: Array1<usize> = Array1::zeros(n);
+        let res = match form {
+            0 => params.transform(kernel.clone()),
+            1 => params.transform(DatasetBase::new(kernel.clone(), tg)),
+            2 => {
+                use linfa::ParamGuard;
+                params.check().map(|v| v.transform(kernel.clone()))
+            }
+            _ => {
+                use linfa::ParamGuard;
+                params.check_ref().map(|v| v.transform(DatasetBase::new(kernel.clone(), tg)))
             }
         };
+        let res = match res {
+            Ok(r) => r,
+            Err(e) => {
+                if valid {
+                    ctx.fail("no_error", &class, format!("valid criterion rejected: {}", e));
+                }
+                return match e {
+                    linfa_hierarchical::HierarchicalError::InvalidStoppingCondition(_) => "err InvalidStoppingCondition".to_string(),
+                    _ => "err other".to_string(),
+                };
+            }
+        };
+        ctx.require(same_kernel(&res.records, kernel), "kernel_returned", &class, || "the records of the result are not the kernel handed in".to_string());
         let labels: Vec<usize> = res.targets.clone();
         ctx.require(labels.len() == n, "all_labelled", &class, || format!("{} labels for {} samples", labels.len(), n));
         let mut ids = labels.clone();
         ids.sort_unstable();
         ids.dedup();
         let nc = ids.len();
-        ctx.require(ids.iter().enumerate().all(|(i, v)| i == *v), "ids_contiguous", &class, || format!("cluster ids {:?}", ids));
         let part = canon(&labels);
+        if !valid {
+            // outside the quantifier of the property: compared with the model only
+            return format!("ok nc={} part={} dist={}", nc, list(part.iter(), |v| v.to_string()), fls(false, dist));
+        }
         match crit {
             Crit::Num(c) => {
                 ctx.require(nc == c.min(n), "cluster_count", &class, || format!("{} clusters for requested {} on {} samples", nc, c, n));
+                // … obtained by the first n - min(c, n) merges of the dendrogram
+                let mut uf = Uf((0..n).collect());
+                let mut rep: Vec<usize> = (0..n).collect();
+                for (a, b, _, _) in steps.iter().take(n - c.min(n)) {
+                    if *a >= rep.len() || *b >= rep.len() {
+                        break;
+                    }
+                    uf.union(rep[*a], rep[*b]);
+                    rep.push(rep[*a]);
+                }
+                let want = uf.partition();
+                ctx.require(part == want, "count_merges", &class, || format!("{} clusters requested: partition {:?}, the first merges of the dendrogram give {:?}", c, part, want));
             }
             Crit::Dist(d) => {
                 // every merge all of whose sub-merges (itself included) lie below the threshold
                 let mut uf = Uf((0..n).collect());
                 let mut rep: Vec<usize> = (0..n).collect();
-                let mut sub: Vec<f64> = vec![f64::NEG_INFINITY; n];
+                let mut sub: Vec<F> = vec![F::neg_infinity(); n];
                 for (a, b, dis, _) in steps.iter() {
                     if *a >= rep.len() || *b >= rep.len() {
                         break;
@@ -700,11 +1025,11 @@ fn op_hier(em: &mut Em, kernel: &Kernel<f64>, ut: &[f64], dist: &[f64], steps: &
                 let want = uf.partition();
                 ctx.require(part == want, "threshold_merges", &class, || format!("threshold {}: partition {:?}, merges below the threshold give {:?}", d, part, want));
                 if mi == 0 {
-                    let dm = dmat(n, dist);
+                    let dm = dmat(n, &wv(dist));
                     let mut g = Uf((0..n).collect());
                     for i in 0..n {
                         for j in i + 1..n {
-                            if dm[i][j] < d {
+                            if dm[i][j] < d.w() {
                                 g.union(i, j);
                             }
                         }
@@ -715,13 +1040,20 @@ fn op_hier(em: &mut Em, kernel: &Kernel<f64>, ut: &[f64], dist: &[f64], steps: &
             }
         }
         format!("ok nc={} part={} dist={}", nc, list(part.iter(), |v| v.to_string()), fls(false, dist))
-    });
+    };
+    if valid {
+        em.case_valid(op, &class, body)
+    } else {
+        em.case(op, body)
+    }
 }
 
 // ---------------------------------------------------------------------------------- generators
 
-fn gen_points(rng: &mut Rng, n: usize, p: usize, style: usize) -> Array2<f64> {
-    match style {
+const STYLES: [&str; 5] = ["lattice_small", "lattice_quarter", "lattice_tie_free", "lattice_groups", "generic"];
+
+fn gen_points<F: Fl>(rng: &mut Rng, n: usize, p: usize, style: usize) -> Array2<F> {
+    let a: Array2<f64> = match style {
         // small integer lattice: many ties and duplicates
         0 => Array2::from_shape_fn((n, p), |_| rng.range(-3, 3) as f64),
         // wider lattice, quarter steps
@@ -743,36 +1075,75 @@ fn gen_points(rng: &mut Rng, n: usize, p: usize, style: usize) -> Array2<f64> {
             let scale = *rng.pick(&[1.0, 1.0, 0.01, 30.0]);
             Array2::from_shape_fn((n, p), |_| (rng.unit() * 2.0 - 1.0) * scale)
         }
-    }
+    };
+    a.mapv(F::nar)
 }
 
-fn gen_method(rng: &mut Rng, lattice: bool) -> Km {
+fn gen_method<F: Fl>(rng: &mut Rng, lattice: bool) -> Km<F> {
     match rng.below(8) {
         0 | 1 | 2 => Km::L,
         3 | 4 | 5 => {
             let e = if lattice { *rng.pick(&[0.5, 1.0, 2.0, 8.0, 0.3, 100.0, 0.0625]) } else { 0.05 + rng.unit() * 10.0 };
-            Km::G(e)
+            Km::G(F::nar(e))
         }
-        _ => Km::P(*rng.pick(&[0.0, 1.0, -1.0, 2.5]), *rng.pick(&[1.0, 2.0, 3.0, 0.5, -1.0, 2.5])),
+        _ => Km::P(F::nar(*rng.pick(&[0.0, 1.0, -1.0, 2.5])), F::nar(*rng.pick(&[1.0, 2.0, 3.0, 0.5, -1.0, 2.5]))),
     }
 }
 
-fn gen_rhs(rng: &mut Rng, n: usize) -> Array2<f64> {
+fn gen_rhs<F: Fl>(rng: &mut Rng, n: usize, nonneg: bool) -> Array2<F> {
     let q = *rng.pick(&[1usize, 2, 3, 8, 9]);
-    Array2::from_shape_fn((n, q), |_| rng.range(-3, 3) as f64)
+    Array2::from_shape_fn((n, q), |_| F::nar(rng.range(if nonneg { 0 } else { -3 }, 3) as f64))
 }
 
-fn hier_cases(em: &mut Em, rng: &mut Rng, kernel: &Kernel<f64>, desc: &str, per_method: usize) {
+fn gen_crit<F: Fl>(rng: &mut Rng, n: usize, steps: &Steps<F>, dist: &[F]) -> Crit<F> {
+    // outside the quantifier: what the parameter guard rejects (and the negative zero it rejects as well)
+    if rng.chance(1, 12) {
+        return match rng.below(6) {
+            0 => Crit::Num(0),
+            1 => Crit::Dist(F::nar(-1.0 - rng.unit())),
+            2 => Crit::Dist(F::nan()),
+            3 => Crit::Dist(F::infinity()),
+            4 => Crit::Dist(F::neg_infinity()),
+            _ => Crit::Dist(F::neg_zero()),
+        };
+    }
+    if rng.coin() {
+        let c = match rng.below(6) {
+            0 => 1,
+            1 => n.max(1),
+            2 => n + 1 + rng.below(3),
+            3 => n.saturating_sub(1).max(1),
+            _ => 1 + rng.below(n.max(1)),
+        };
+        Crit::Num(c)
+    } else {
+        let zero = F::zero();
+        let d = match rng.below(7) {
+            0 => zero,
+            1 => F::nar(20.0),
+            2 | 3 if !steps.is_empty() => steps[rng.below(steps.len())].2.max(zero),
+            4 if !steps.is_empty() => {
+                let s = steps[rng.below(steps.len())].2;
+                (s + F::nar(0.5 * rng.unit())).max(zero)
+            }
+            5 if !dist.is_empty() => dist[rng.below(dist.len())].max(zero),
+            _ => F::nar(rng.unit() * 14.0),
+        };
+        Crit::Dist(d)
+    }
+}
+
+fn hier_cases<F: Fl>(em: &mut Em, rng: &mut Rng, kernel: &Kernel<F>, desc: &str, per_method: usize) {
     let n = kernel.size();
     let ut = kernel.to_upper_triangle();
-    let dist: Vec<f64> = ut.iter().map(|x| to_dist(*x)).collect();
+    let dist: Vec<F> = ut.iter().map(|x| to_dist(*x)).collect();
     if dist.iter().any(|d| !d.is_finite()) {
         em.count("hier:nonfinite_skipped");
         return;
     }
     for mi in 0..METHODS.len() {
         let mut buf = dist.clone();
-        let steps: Steps = match catch_unwind(AssertUnwindSafe(|| linkage_steps(&mut buf, n, METHODS[mi].0))) {
+        let steps: Steps<F> = match catch_unwind(AssertUnwindSafe(|| F::steps(&mut buf, n, METHODS[mi].0))) {
             Ok(s) => s,
             Err(_) => {
                 em.count("hier:linkage_panicked");
@@ -791,100 +1162,147 @@ fn hier_cases(em: &mut Em, rng: &mut Rng, kernel: &Kernel<f64>, desc: &str, per_
         }
         op_linkage(em, n, &dist, &steps, mi, desc);
         for _ in 0..per_method {
-            let crit = if rng.coin() {
-                let c = match rng.below(6) {
-                    0 => 1,
-                    1 => n.max(1),
-                    2 => n + 1 + rng.below(3),
-                    3 => n.saturating_sub(1).max(1),
-                    _ => 1 + rng.below(n.max(1)),
-                };
-                Crit::Num(c)
-            } else {
-                let d = match rng.below(7) {
-                    0 => 0.0,
-                    1 => 20.0,
-                    2 | 3 if !steps.is_empty() => steps[rng.below(steps.len())].2.max(0.0),
-                    4 if !steps.is_empty() => {
-                        let s = steps[rng.below(steps.len())].2;
-                        (s + 0.5 * rng.unit()).max(0.0)
-                    }
-                    5 if !dist.is_empty() => dist[rng.below(dist.len())].max(0.0),
-                    _ => rng.unit() * 14.0,
-                };
-                Crit::Dist(d)
-            };
-            match crit {
-                Crit::Num(c) => em.count(if c >= n { "hier:count>=n" } else { "hier:count<n" }),
-                Crit::Dist(d) => em.count(if steps.iter().any(|s| s.2 == d) { "hier:threshold_on_a_merge" } else { "hier:threshold_between" }),
+            let crit = gen_crit(rng, n, &steps, &dist);
+            let form = if rng.coin() { 0 } else { rng.below(HFORMS.len()) };
+            let before = (em.panics, *em.dist.get(&format!("err:hier{}", F::T)).unwrap_or(&0));
+            op_hier(em, kernel, &ut, &dist, &steps, mi, crit, desc, form);
+            let clustered = before == (em.panics, *em.dist.get(&format!("err:hier{}", F::T)).unwrap_or(&0));
+            if !crit.valid() {
+                em.count("hier:invalid_criterion");
+            } else if clustered {
+                match crit {
+                    Crit::Num(c) => em.count(if c >= n { "hier:count>=n" } else { "hier:count<n" }),
+                    Crit::Dist(d) => em.count(if steps.iter().any(|s| s.2 == d) { "hier:threshold_on_a_merge" } else { "hier:threshold_between" }),
+                }
+                em.count(&format!("hier:clustered:form={}", HFORMS[form]));
+                em.count(&format!("hier:clustered:{}", METHODS[mi].1));
+                em.count(&format!("hier:clustered:type=f{}", if F::T.is_empty() { "64" } else { F::T }));
             }
-            op_hier(em, kernel, &ut, &dist, &steps, mi, crit, desc);
         }
     }
 }
 
-pub fn run(em: &mut Em, rng: &mut Rng) {
+fn rounds<F: Fl>(em: &mut Em, rng: &mut Rng, rounds: usize, nmax: usize, hier_max: usize) {
     let thorough = em.thorough();
-    let (rounds, nmax) = if thorough { (2500, 60) } else { (70, 12) };
+    let is64 = F::T.is_empty();
+    let ty = if is64 { "f64" } else { "f32" };
     for round in 0..rounds {
         let style = rng.below(5);
-        let lattice = style != 4;
-        let n = if round < 4 { round } else if rng.chance(1, 4) { 2 + rng.below(nmax.min(8)) } else { 2 + rng.below(nmax - 1) };
-        let p = match rng.below(10) {
-            0 if style != 2 => 0,
-            1 => 8 + rng.below(10),
-            2 => 4 + rng.below(4),
+        // beyond the leaf size (16) of the tree indices: kd-tree and ball tree really split
+        let big = round >= 4 && rng.chance(1, 7);
+        let n = if round < 4 {
+            round
+        } else if big {
+            17 + rng.below(if thorough { 44 } else { 20 })
+        } else if rng.chance(1, 4) {
+            2 + rng.below(nmax.min(8))
+        } else {
+            2 + rng.below(nmax - 1)
+        };
+        let p = match rng.below(20) {
+            0 | 1 if style != 2 => 0,
+            2 | 3 => 8 + rng.below(10),
+            4 | 5 => 4 + rng.below(4),
+            6 => 18 + rng.below(23),
             _ => 1 + rng.below(3),
         };
-        let x = gen_points(rng, n, p, style);
-        em.count(&format!("points:{}", ["lattice_small", "lattice_quarter", "lattice_tie_free", "lattice_groups", "generic"][style]));
-        let km = gen_method(rng, lattice);
+        let x: Array2<F> = gen_points(rng, n, p, style);
+        em.count(&format!("points:{}", STYLES[style]));
+        em.count(&format!("type:{}", ty));
+        // squared distances are exact in the type (ties are real ties) on the lattices; in f32 the power-of-two
+        // lattice exceeds 24 bits
+        let lattice = style != 4;
+        let exact_geometry = lattice && (is64 || style != 2);
+        let knn_tol = if exact_geometry { 0.0 } else { (1e-9f64).max(8.0 * (p as f64 + 2.0) * F::EPS) };
+        let km: Km<F> = gen_method(rng, lattice);
         em.count(&format!("kernel:{}", km.name()));
         let mut ci: Vec<usize> = (0..3).map(|_| rng.below(n + 1)).collect();
         if rng.chance(1, 6) {
             ci.push(n + rng.below(3));
         }
-        op_dense(em, &x, km, &ci);
-        // dot: keep to values where the products carry no cancellation blow-up (see notes)
-        let km_dot = match km {
-            Km::P(c, d) if d.fract() != 0.0 || d < 0.0 => Km::P(c, 2.0),
+        let call = Call::draw(rng);
+        let before = em.panics;
+        op_dense(em, &x, km, &ci, call);
+        if em.panics == before {
+            em.count(&format!("dense:built:form={}", FORMS[call.form]));
+            em.count(&format!("dense:built:lay={}", LAYS[call.lay]));
+            em.count(&format!("dense:built:type={}", ty));
+        }
+        // dot: keep to values where the products carry no cancellation blow-up (see notes): integral non-negative
+        // polynomial degrees; in f32 in addition only kernels that are exact (linear on a lattice) or without
+        // sign changes (Gaussian, even degree with a non-negative right-hand side)
+        let km_dot: Km<F> = match km {
+            Km::P(c, d) if d.w().fract() != 0.0 || d.w() < 0.0 => Km::P(c, F::nar(2.0)),
+            Km::P(c, d) if !is64 && d.w() != 2.0 => Km::P(c, F::nar(2.0)),
+            Km::L if !is64 && !(style == 0 || style == 3) => Km::G(F::nar(2.0)),
             m => m,
         };
-        let r = gen_rhs(rng, n);
-        op_ddot(em, &x, km_dot, &r);
+        let nonneg = !is64 && !matches!(km_dot, Km::L);
+        let r: Array2<F> = gen_rhs(rng, n, nonneg);
+        let rlay = if rng.coin() { 0 } else { rng.below(LAYS.len()) };
+        op_ddot(em, &x, km_dot, &r, Call::draw(rng), rlay);
         // sparse kernels: a few neighbour counts (boundaries 0, 1, n-1, n included) with every index
         if p > 0 {
             let mut ks: Vec<usize> = vec![1, n.saturating_sub(1), 1 + rng.below(n.max(2) - 1)];
+            if big {
+                ks = vec![1 + rng.below(n - 1), 1 + rng.below(6)];
+            }
             if rng.chance(1, 4) {
                 ks.push(*rng.pick(&[0, n, n + 1]));
             }
             ks.sort_unstable();
             ks.dedup();
             for k in ks {
-                let dot_which = rng.below(3);
-                for which in 0..3 {
+                let dot_which = rng.below(IDX.len());
+                // every Common index, and two of the four others in turn
+                let extra = 3 + rng.below(4);
+                for which in 0..IDX.len() {
                     if which > 0 && !(k > 0 && k < n) {
                         continue;
                     }
+                    if which >= 3 && which != extra && which != 3 + (extra + 1) % 4 && which != dot_which {
+                        continue;
+                    }
                     em.count(&format!("sparse:k={}", if k == 0 { "0" } else if k + 1 == n { "n-1" } else if k >= n { ">=n" } else { "inner" }));
-                    op_sparse(em, &x, km, k, which, &ci, lattice, None);
+                    let call = Call::draw(rng);
+                    let before = em.panics;
+                    op_sparse(em, &x, km, k, which, &ci, knn_tol, call, None);
+                    if em.panics == before && k > 0 && k < n {
+                        em.count(&format!("sparse:built:idx={}", IDX[which]));
+                        em.count(&format!("sparse:built:lay={}", LAYS[call.lay]));
+                        em.count(&format!("sparse:built:form={}", FORMS[call.form]));
+                        em.count(&format!("sparse:built:type={}", ty));
+                        if n > 16 {
+                            em.count("sparse:built:n>16");
+                        }
+                    }
                     if which == dot_which && k > 0 && k < n {
-                        op_sparse(em, &x, km_dot, k, which, &ci, lattice, Some(&r));
+                        op_sparse(em, &x, km_dot, k, which, &ci, knn_tol, Call::draw(rng), Some((&r, rlay)));
                     }
                 }
             }
         }
         // hierarchical clustering on this kernel (dense, and one sparse variant)
-        if n <= if thorough { 40 } else { 12 } {
+        if n <= hier_max {
             let per = if thorough { 3 } else { 2 };
-            let dense = Kernel::<f64>::params().method(km.linfa()).transform(x.view());
+            let dense = Kernel::<F>::params().method(km.linfa()).transform(x.view());
             hier_cases(em, rng, &dense, &format!("dense:{}", km.name()), per);
             if p > 0 && n >= 3 && rng.chance(1, 3) {
                 let k = 1 + rng.below(n - 1);
-                if let Ok(sp) = catch_unwind(AssertUnwindSafe(|| Kernel::<f64>::params().kind(KernelType::Sparse(k)).method(km.linfa()).transform(x.view()))) {
+                if let Ok(sp) = catch_unwind(AssertUnwindSafe(|| Kernel::<F>::params().kind(KernelType::Sparse(k)).method(km.linfa()).transform(x.view()))) {
                     hier_cases(em, rng, &sp, &format!("sparse{}:{}", k, km.name()), 1);
                 }
             }
         }
+    }
+}
+
+pub fn run(em: &mut Em, rng: &mut Rng) {
+    if em.thorough() {
+        rounds::<f64>(em, rng, 4000, 60, 40);
+        rounds::<f32>(em, rng, 1500, 40, 30);
+    } else {
+        rounds::<f64>(em, rng, 80, 12, 12);
+        rounds::<f32>(em, rng, 36, 12, 12);
     }
 }
